@@ -121,7 +121,17 @@ pub fn clip_scene_dims(bwbh: BoxedStrategy<(u32, u32)>, max_tris: usize, color_o
                 bh,
                 vp: [l, t, r, b],
                 tris: ts.iter().map(|t| t.map(xs)).collect(),
-                attrs: tris.iter().map(|(_, a)| xs(*a)).collect(),
+                attrs: {
+                    let mut a: Vec<[X; 3]> = tris.iter().map(|(_, a)| xs(*a)).collect();
+                    // one scene in ten: the first two triangles carry the same constant attribute (identical colour words
+                    // from different surfaces: the depth must still be the nearer one's)
+                    if sw == 1 && a.len() >= 2 {
+                        let c = a[0][0];
+                        a[0] = [c, c, c];
+                        a[1] = [c, c, c];
+                    }
+                    a
+                },
                 door: if batch { Door::Batch } else { Door::Render },
                 target,
                 proj: None,
@@ -310,7 +320,8 @@ pub fn check(sc: &Scene, obs: &mut Obs) -> Check {
                     let a = refs[t].attr;
                     let (lo, hi) = (a.iter().cloned().fold(f64::MAX, f64::min), a.iter().cloned().fold(f64::MIN, f64::max));
                     // D-i: the rasteriser samples each pixel within ~0.002 px of its centre; where the field is steep that shows
-                    let tol = 0.005 * (hi - lo) + 1e-5 * lo.abs().max(hi.abs()) + 1e-6 + SAMPLE_POS_TOL * g_attr;
+                    // rounding floor for (nearly) constant fields, as in C05: a*z is stepped across the triangle and divided by the stepped z
+                    let tol = 0.005 * (hi - lo) + 2e-4 * lo.abs().max(hi.abs()) + 1e-6 + SAMPLE_POS_TOL * g_attr;
                     let got = f32_of(got_c) as f64;
                     let e = (got - attr).abs();
                     if hi - lo > 1e-3 {
